@@ -444,6 +444,40 @@ def check_slices(case, opts, fails):
     return True
 
 
+def check_fasta_input(case, opts, fails):
+    """C19: FASTA input gives the same names and sequences as FASTQ input when no quality-based option is used."""
+    d, paired, rng = case.d, case.paired, case.rng
+    quality_based = {"-q", "--nextseq-trim", "--max-ee", "--max-aer", "--zero-cap"}
+    o = []
+    skip = False
+    for x in opts:
+        if skip:
+            skip = False
+            continue
+        if x in quality_based:
+            skip = x != "--zero-cap"
+            continue
+        o.append(x)
+    fa = []
+    for k, recs in ((1, case.r1), (2, case.r2)):
+        pth = os.path.join(d, f"fa{k}.fasta")
+        with open(pth, "w") as f:
+            for name, seq, _ in recs:
+                f.write(f">{name}\n{seq}\n")
+        fa.append(pth)
+    res = []
+    for tag, ins in (("q", case.inputs()), ("a", fa[:2 if paired else 1])):
+        o1 = os.path.join(d, f"fi_{tag}.1.fasta")
+        outs = ["-o", o1] + (["-p", os.path.join(d, f"fi_{tag}.2.fasta")] if paired else [])
+        code, _, err = run(o + outs + ins)
+        if code != 0:
+            return False
+        res.append([[(r[0], r[1]) for r in read_records(pth)] for pth in ([o1] + ([os.path.join(d, f"fi_{tag}.2.fasta")] if paired else []))])
+    if res[0] != res[1]:
+        fails.append(("C19", o + ["<fastq vs fasta input>"], "names / sequences differ between FASTQ input and the same reads as FASTA input"))
+    return True
+
+
 def check_stdout(case, opts, fails):
     """C19: standard output has no name: FASTA exactly when --fasta is given, otherwise the input format (single-end and
     paired-end interleaved)."""
@@ -729,7 +763,8 @@ def main():
             elif kind == "C19":
                 r_ = rng.random()
                 did = check_cores(case, mods, fails) if r_ < 0.25 else check_layout(case, mods, fails) if r_ < 0.5 else \
-                    check_formats(case, mods, fails) if r_ < 0.8 else check_stdout(case, mods, fails)
+                    check_formats(case, mods, fails) if r_ < 0.7 else check_stdout(case, mods, fails) if r_ < 0.85 else \
+                    check_fasta_input(case, mods, fails)
             elif kind == "C10":
                 did = check_order(case, fails)
             elif kind == "C11":
